@@ -99,7 +99,9 @@ func evalC07(h history, rec *hx.Rec) error {
 	return nil
 }
 
-var c07Part = hx.NewPart("C07", "pool", func(t *rapid.T) history { return genHistory(t, 30) }, evalC07)
+var c07Part = hx.NewPart("C07", "pool", func(t *rapid.T) history {
+	return genHistory(t, rapid.SampledFrom([]int{30, 30, 30, 60}).Draw(t, "max_acts"))
+}, evalC07)
 
 func TestC07(t *testing.T) {
 	s := hx.Start(t, "C07")
